@@ -645,6 +645,14 @@ func (r *vgRun) streamRandom(rng *rand.Rand, count int) {
 					}
 					r.exec(fmt.Sprintf("g addd %d 0 %s", n2, ints(d2)))
 				}
+				if rng.Intn(3) == 0 { // a mutation between the deferred adds and the check: derived fields are stale here
+					if rng.Intn(2) == 0 {
+						r.exec(fmt.Sprintf("g rm %d", rng.Intn(ids)))
+					} else {
+						r.exec(fmt.Sprintf("g add %d 0 %s", rng.Intn(ids), ints(deps)))
+					}
+					r.stats["mutation_before_detect"]++
+				}
 				r.exec("g detect")
 			case k < 18:
 				r.exec(fmt.Sprintf("g rm %d", node))
